@@ -18,18 +18,27 @@ CONF = {'quick': (2, 1, '{"int", "qubit", "other"}'), 'thorough': (3, 1, '{"int"
 KINDNAME = {'qubit': 'QUBIT', 'register': 'REGISTER', 'int': 'INT', 'float': 'FLOAT', 'none': None}
 
 
-def make_value(cls):
+def make_value(cls, rep=0):
+    """a representative of a value class; `rep` selects among several representatives of the same class (the
+    specification decides by class, so every representative must get the same verdict): the edges of the class -
+    zero, negative, integers beyond the range of a double, floats beyond the range of an int, infinities, NaN"""
     from jaqalpaq.core.register import Register
     from jaqalpaq.core.constant import Constant
     from jaqalpaq.core.parameter import Parameter, ParamType
     r = Register('r', 3)
-    return {
-        'qubit': lambda: r[1], 'register': lambda: r, 'int': lambda: 3, 'ifloat': lambda: 2.0, 'float': lambda: 1.5,
-        'let_int': lambda: Constant('c', 2), 'let_ifloat': lambda: Constant('c', 2.0), 'let_float': lambda: Constant('c', 1.5),
-        'param_none': lambda: Parameter('p', None), 'param_qubit': lambda: Parameter('p', ParamType.QUBIT),
-        'param_register': lambda: Parameter('p', ParamType.REGISTER), 'param_int': lambda: Parameter('p', ParamType.INT),
-        'param_float': lambda: Parameter('p', ParamType.FLOAT), 'other': lambda: 'text',
-    }[cls]()
+    pool = {
+        'qubit': [lambda: r[1], lambda: r[0]], 'register': [lambda: r, lambda: Register('s', alias_from=r, alias_slice=slice(0, 2, 1))],
+        'int': [lambda: 3, lambda: 10 ** 400, lambda: -(2 ** 1024), lambda: 0],
+        'ifloat': [lambda: 2.0, lambda: 1e300, lambda: -0.0],
+        'float': [lambda: 1.5, lambda: float('inf'), lambda: float('nan'), lambda: 5e-324],
+        'let_int': [lambda: Constant('c', 2), lambda: Constant('c', 10 ** 400)],
+        'let_ifloat': [lambda: Constant('c', 2.0), lambda: Constant('c', 1e300)],
+        'let_float': [lambda: Constant('c', 1.5), lambda: Constant('c', float('inf'))],
+        'param_none': [lambda: Parameter('p', None)], 'param_qubit': [lambda: Parameter('p', ParamType.QUBIT)],
+        'param_register': [lambda: Parameter('p', ParamType.REGISTER)], 'param_int': [lambda: Parameter('p', ParamType.INT)],
+        'param_float': [lambda: Parameter('p', ParamType.FLOAT)], 'other': [lambda: 'text', lambda: None, lambda: [1]],
+    }[cls]
+    return pool[rep % len(pool)]()
 
 
 def outcome(fn):
@@ -46,7 +55,7 @@ def run_call(job):
     names = ['x%d' % j for j in range(len(sig))]
     params = [Parameter(n, getattr(ParamType, KINDNAME[k]) if KINDNAME[k] else None) for n, k in zip(names, sig)]
     gd = GateDefinition('gg', params)
-    vals = [make_value(c) for c in args]
+    vals = [make_value(c, job.get('rep', 0)) for c in args]
     pos, gp = outcome(lambda: gd(*vals))
     skipped = {'cls': 'skipped'}
     kw, gk, missing, unknown, mixed = skipped, None, skipped, skipped, skipped
@@ -61,7 +70,7 @@ def run_call(job):
         mixed, _ = outcome(lambda: gd(vals[0], **dict(list(zip(names, vals))[1:])) if len(args) > 1 else gd(vals[0], zz=1))
     same = bool(gp is not None and gk is not None and gp == gk and list(gp.parameters.items()) == list(gk.parameters.items()))
     return {'id': job['id'], 'kind': 'call', 'sig': sig, 'args': args, 'pos': pos, 'kw': kw, 'same': same,
-            'missing': missing, 'unknown': unknown, 'mixed': mixed, 'text': 'gate(%s)(%s)' % (', '.join(sig), ', '.join(args))}
+            'missing': missing, 'unknown': unknown, 'mixed': mixed, 'text': 'gate(%s)(%s) representatives #%d: %s' % (', '.join(sig), ', '.join(args), job.get('rep', 0), [repr(v)[:40] for v in vals])}
 
 
 def variant_cases():
@@ -161,7 +170,8 @@ def main(tier):
         if line.startswith('<<"CALL", ') and line not in seen:
             seen.add(line)
             d = json.loads(json.loads(line[len('<<"CALL", '):].rstrip()[:-2]))
-            jobs.append({'id': 'call/%d' % len(jobs), 'sig': d['sig'], 'args': d['args']})
+            for rp in range(4):
+                jobs.append({'id': 'call/%d/rep%d' % (len(seen), rp), 'sig': d['sig'], 'args': d['args'], 'rep': rp})
     rep.phase('tlc_enumeration')
     recs = core.pool_map(run_call, jobs, chunksize=500)
     vrecs = variant_cases()
